@@ -36,12 +36,15 @@ def shapes(eng):
     return out
 
 
+FIELD_TABLES = {"RTCM_DATA_FIELDS"}  # names of descriptor tables visible in the helper module (set by run)
+
+
 def _lookup_constructs(f):
     out = []
     for n in walk_no_nested(f.node):
-        if isinstance(n, ast.Subscript) and isinstance(n.value, ast.Name) and n.value.id == "RTCM_DATA_FIELDS":
+        if isinstance(n, ast.Subscript) and isinstance(n.value, ast.Name) and n.value.id in FIELD_TABLES:
             out.append(n)
-        if isinstance(n, ast.Call) and isinstance(n.func, ast.Attribute) and isinstance(n.func.value, ast.Name) and n.func.value.id == "RTCM_DATA_FIELDS":
+        if isinstance(n, ast.Call) and isinstance(n.func, ast.Attribute) and isinstance(n.func.value, ast.Name) and n.func.value.id in FIELD_TABLES:
             out.append(n)
     return out
 
@@ -49,7 +52,17 @@ def _lookup_constructs(f):
 def run(eng, ctx):
     T = eng.tables
     sh = shapes(eng)
-    g = {"RTCM_DATA_FIELDS": T.fields}
+    # the helper module's own view of the descriptor table(s): what `datadesc` can find is what is in the table *it* names, which need not be
+    # the table the decoder generates names from (T.fields)
+    henv = eng.ce.module_env("rtcmhelpers")
+    g = {}
+    for nm_, val_ in henv.items():
+        if isinstance(val_, dict) and len(val_) >= 100 and all(isinstance(k_, str) and isinstance(x_, tuple) and len(x_) == 4 for k_, x_ in list(val_.items())[:50]):
+            g[nm_] = val_
+    if not g:
+        g = {"RTCM_DATA_FIELDS": T.fields}
+    FIELD_TABLES.clear()
+    FIELD_TABLES.update(g)
     # module-level compiled patterns of the helper module: NAME = re.compile("<constant pattern>")
     for st_ in eng.repo.modules["rtcmhelpers"].tree.body:
         if isinstance(st_, ast.Assign) and len(st_.targets) == 1 and isinstance(st_.targets[0], ast.Name) and isinstance(st_.value, ast.Call) and norm(st_.value.func) in ("re.compile", "compile") \
@@ -141,7 +154,7 @@ def run(eng, ctx):
         except Undecided as err:
             und.append(f"{shape.show()}: {err}")
             continue
-        if isinstance(r, TableVal) and r.table == "RTCM_DATA_FIELDS":
+        if isinstance(r, TableVal) and r.table in FIELD_TABLES:
             k = r.key
             if k.is_lit() and k.text() == key and r.proj == (3,):
                 continue
